@@ -1,12 +1,13 @@
 """Round-2 prompts: as round 1, plus the list of ideas already used for the property (to be avoided)."""
-import json, os, glob
+import json, os, glob, sys
+R = sys.argv[1] if len(sys.argv) > 1 else "2"   # round number: prompts in /tmp/mutprompts<R>, worktrees /tmp/mut<R>_<Cnn>
 T = open(os.path.join(os.path.dirname(__file__), "mutation_prompt_template.txt")).read()
-os.makedirs("/tmp/mutprompts2", exist_ok=True)
+os.makedirs("/tmp/mutprompts%s" % R, exist_ok=True)
 V = os.path.join(os.path.dirname(__file__), "..")
 for l in open(os.path.join(V, "properties.jsonl")):
     p = json.loads(l)
     s = T.replace("{id}", p["id"]).replace("{title}", p["title"]).replace("{statement}", p["statement"]).replace("{quant}", p["quantifier"]["text"])
-    s = s.replace("/tmp/mut_%s" % p["id"], "/tmp/mut2_%s" % p["id"])
+    s = s.replace("/tmp/mut_%s" % p["id"], "/tmp/mut%s_%s" % (R, p["id"]))
     used = []
     for d in sorted(glob.glob(os.path.join(V, "seeded", p["id"] + "_*"))):
         try:
@@ -16,5 +17,5 @@ for l in open(os.path.join(V, "properties.jsonl")):
             pass
     s += "\n\nIdeas ALREADY USED for this property by earlier testers -- do not repeat them or close variants; find defects of a different kind, at different sites, needing different circumstances to manifest:\n" + "\n".join(used)
     s += "\n\nDo not use `git stash` in your worktree (the stash is shared with /repo); to check that a patch applies cleanly use `git apply --check` in a second scratch worktree (remove it afterwards)."
-    open("/tmp/mutprompts2/%s.txt" % p["id"], "w").write(s)
+    open("/tmp/mutprompts%s/%s.txt" % (R, p["id"]), "w").write(s)
 print("ok")
